@@ -24,7 +24,19 @@ def run(res, tier, replay):
     cases = []; meta = []
     for i in range(n):
         try:
-            if i == 7 or (i % 100 == 57):
+            if i == 9 or (i % 50 == 29):
+                # every entry's length / offset needs a three-byte (or longer) ENCINT, tiny chunks: many entries end exactly where the
+                # quick-reference area begins
+                ee = [(b"/e%02d_%s" % (j, b"x" * (j % 5)), 0, 20000 * j + 16384, 16384 + 977 * j) for j in range(40)]
+                p = dict(chunk_size=rng.choice([96, 128, 160]), density=rng.choice([1, 2]), with_index=(i % 2 == 1), version=3)
+                chm, exp = chmfmt.build([(b"/a.txt", b"hello")], (), rng, extra_entries=ee, **p)
+            elif i == 11 or (i % 50 == 31):
+                # names that are not valid UTF-8 (single-byte code pages): bytes 0x80-0xC1 and 0xF6-0xFF, sequences cut short by the end of the name
+                bad = [b"/\xfcbersicht.html", b"/caf\xe9", b"/caf\xe9.txt", b"/k\x80", b"/m\xff\xfe", b"/a\xc3", b"/d\xe2\x82", b"/b\xf0\x9f\x98", b"/n\xc0\xaf1", b"/z\xf8x"]     # pairwise different once decoded leniently
+                f0 = [(nm, b"d%d" % k) for k, nm in enumerate(bad)] + [(b"/plain%02d" % k, b"") for k in range(12)]
+                p = dict(chunk_size=rng.choice([128, 256, 4096]), density=rng.choice([0, 2]), with_index=True, version=3)
+                chm, exp = chmfmt.build(f0, (), rng, **p)
+            elif i == 7 or (i % 100 == 57):
                 # more than 1024 chunks (chunk numbers above any small table size): tiny chunks, thousands of short names
                 f0 = [(b"/n%04d" % j, b"") for j in range(4200)]
                 p = dict(chunk_size=64, density=1, with_index=True, version=3)
